@@ -43,4 +43,10 @@ META = {
   text="Generated search over start/stop placements relative to a growing head, batch sizes straddling the stop, and restarts; every commit is checked against the configured range, completion is checked against the cursor model, and the table against the projection of the range.",
   note="Trusted: fakepg, sim node, projection model. 'Head at first contact' is read from the simulated node's request log.",
  ),
+ "C05": dict(
+  design_ref="DESIGN.md §4, §5 C05",
+  technique="rapid scheduler-driven state machine over generated filter_ref dependency graphs; cursor-ordering invariant at every commit + sandwich oracle for rows (guaranteed vs possible lookups)",
+  text="Generated search over dependency graphs and relative task speeds; the ordering invariant is evaluated on the committed state after every step of a dependant, and the dependant's final rows are bounded from below and above by independent projections.",
+  note="Trusted: fakepg (incl. the dependency CTE semantics: distinct on / ANY / order by), sim node, projection model.",
+ ),
 }
